@@ -399,7 +399,7 @@ def muldiv_rules(ck, ix):
                     continue
                 ck.check(called, "G-ERR-c", f"predicate-called|{key}", f.loc(a), "predicate is called",
                          f"`{norm(par) if par is not None else a.attr}` uses the bound method `{a.attr}` without calling it: the test is constant and the guard is dead")
-    ck.floor("G-ERR-c", n, 20, "uses of the multiplicativity predicates")
+    ck.floor("G-ERR-c", n, 10, "uses of the multiplicativity predicates")
 
     # exhaustive abstract evaluation of NonMultiplicativeQuantity._ok_for_muldiv
     fi = ix.func(NO, "NonMultiplicativeQuantity._ok_for_muldiv")
